@@ -1,2 +1,68 @@
-(* Properties_C04.v -- placeholder, theorems follow *)
-From TP Require Import Term.
+(* Properties_C04.v — C04: screen.draw sends only the cells that changed; an
+   unchanged canvas sends nothing. *)
+From TP Require Import Base Elem Term Screen VT Oracle P_Sync P_Step P_Bytes P_Run P_Canvas P_Screen Tie_Output.
+From Coq Require Import Lia.
+Local Open Scope N_scope.
+
+(* drawing a canvas equal (cell-wise, by element ==) to the one last drawn, of
+   the same size, performs no terminal operation and writes no byte *)
+Theorem C04_same_canvas_silent :
+  forall beh s st c,
+    same_size s c = true ->
+    (forall x y, x < cw c -> y < ch c ->
+       element_eqb (cv_get (last_frame s) x y) (cv_get c x y) = true) ->
+    draw_ops s c = [] /\ render_all (snd (draw beh s st c)) = [] /\
+    snd (fst (draw beh s st c)) = st.
+Proof.
+  intros beh s st c Hs Heq.
+  assert (Hops : draw_ops s c = []).
+  { rewrite draw_ops_changed. fold (same_size s c). rewrite Hs. cbn [app].
+    unfold prev_frame. fold (same_size s c). rewrite Hs.
+    assert (Hnil : changed_cells (last_frame s) c = []).
+    { unfold changed_cells. destruct (filter _ _) as [|pe r] eqn:Ef; [reflexivity|].
+      exfalso. assert (Hin : In pe (pe :: r)) by (left; reflexivity). rewrite <- Ef in Hin.
+      destruct (in_changed _ _ _ Hin) as (Hx & Hy & He & Hne). rewrite He in Hne.
+      rewrite (Heq _ _ Hx Hy) in Hne. discriminate. }
+    rewrite Hnil. reflexivity. }
+  split; [exact Hops|]. unfold draw. rewrite Hops. cbn. split; reflexivity.
+Qed.
+Print Assumptions C04_same_canvas_silent.
+
+(* in general the operations of a draw are: an erase if the size changed, then
+   move+write for exactly the cells whose element differs from the previous
+   frame (blank after a size change), in row-major order, each once - and
+   nothing for any other cell *)
+Theorem C04_operations :
+  forall s c,
+    draw_ops s c =
+    (if same_size s c then [] else [Erase EDisplay]) ++
+    flat_map (fun pe => [Move (fst pe); WElem (snd pe)])
+             (filter (fun pe => negb (element_eqb (cv_get (prev_frame s c) (fst (fst pe)) (snd (fst pe))) (snd pe)))
+                     (region_visit c 0 0 (cw c) (ch c))).
+Proof. exact draw_ops_changed. Qed.
+Print Assumptions C04_operations.
+
+(* and on the terminal: the glyphs a draw makes the reference terminal show are
+   exactly those cells, at their own positions, in that order *)
+Theorem C04_exact_cells :
+  forall cfg beh, (b_unicode_all beh = true -> unicode_all cfg = true) ->
+  forall s st v c,
+    Sync beh st v -> ts_size st = (cw c, ch c) -> canvas_elems_wf c ->
+    (same_size s c = true -> Frame (last_frame s) v) ->
+    (wrap cfg <> Immediate \/
+     element_eqb (cv_get (prev_frame s c) (cw c - 1) (ch c - 1)) (cv_get c (cw c - 1) (ch c - 1)) = true) ->
+    let v' := vt_bytes cfg v (render_all (snd (draw beh s st c))) in
+    trace v' = rev (map (fun pe => (fst pe, display_of (snd pe))) (changed_cells (prev_frame s c) c)) ++ trace v /\
+    last_frame (fst (fst (draw beh s st c))) = c.
+Proof.
+  intros cfg beh Huni s st v c S Hsz Hwf Hf Hns v'.
+  destruct (draw_correct cfg beh Huni s st v c S Hsz Hwf Hf Hns) as (_ & _ & H3 & _ & H5).
+  split; [exact H5|exact H3].
+Qed.
+Print Assumptions C04_exact_cells.
+
+Example C04_nonvacuous :
+  let c := cv_set (blank_canvas 2 2) 1 0 (mkElem (mkGlyph CsAscii 65 0 0) default_attr) in
+  map fst (changed_cells (blank_canvas 2 2) c) = [(1, 0)] /\
+  changed_cells c c = [].
+Proof. vm_compute. split; reflexivity. Qed.
